@@ -52,9 +52,13 @@ def generate(seed, tier, index):
     eps = []
     coobs = rf.chance(0.3) and Model(spec).ns * Model(spec).nc <= 8
     entries = None
+    ac = False
     if coobs:
         m = Model(spec)
         entries = [[rf.randint(0, m.ns - 1), rf.randint(0, m.nc - 1)] for _ in range(2)]
+        if rf.chance(0.5):
+            entries = "all"         # the whole-state function, reported in each rendering's own choice of units
+        ac = rf.chance(0.5)         # with the chemostat mask applied (the default of the API)
     for r in range(nr):
         ru = base.sub("render", r)
         us = uss[r]
@@ -71,6 +75,11 @@ def generate(seed, tier, index):
         else:
             R = gen.Renderer(ru, rich=True)
             sysd, pus, info = R.system(spec)
+            if rf.chance(0.25) and gen.boundary_numbers_ok(spec, info["sys_eff"]):
+                # the script is written (and reports) in the very units system the system object declares for itself,
+                # while network, species and space may declare others
+                us = dict(info["sys_eff"])
+                style = "rich+script-in-system-units"
             kw = gen.render_script(ru, sp, us, rich=True)
         if r >= 2 and rf.chance(0.5):
             # same rendering as #0, other output units: only the scale of the numbers may change
@@ -92,7 +101,7 @@ def generate(seed, tier, index):
         scripts.append(ent)
         ops = [["sysinfo"], ["setup"], ["observe"]]
         if coobs:
-            ops.append(["kinetics", entries, False, gen.draw_us(ru)])
+            ops.append(["kinetics", entries, ac, gen.draw_us(ru)])
         ops += [["drive", [["iterate"], ["observe"]], C.fixed_steps_needed(sp) + 3], ["output"], ["finalize"]]
         eps.append({"obj": r % 2, "kind": "euler", "via": rf.choice(["LibRDEngine", "factory"]), "script": r, "ops": ops})
     return {"format": 1, "property": ID, "seed": seed, "tier": tier, "index": index, "build": "plain",
@@ -141,7 +150,7 @@ def check(case, results):
             traj.euler_oracle(h, m, phys, v, stats, "C04")
             for ev in res.events:
                 if ev["e"] == ei and ev["op"] == "kinetics" and "exc" not in ev and not ev.get("skipped"):
-                    check_kinetics(ev, ep["ops"][ev["i"]], m, phys, v, stats, "C04", masked=False)
+                    check_kinetics(ev, ep["ops"][ev["i"]], m, phys, v, stats, "C04", masked=bool(ep["ops"][ev["i"]][2]))
             if h.outputs and not v:
                 out = h.outputs[-1][1]
                 us = phys["us"]
